@@ -929,6 +929,21 @@ VARIANTS = {
                  spanlex={"Q": [["<x>", "x"], ["<x y>", "x y"], ["<x\ny>", "x\ny"], ["<p\nq\nr>", "p\nq\nr"], ["<{z}>", "{z}"],
                                 ["<a b>", "a b"], ["<>", ""]]},
                  spannoise=["{c}", "{c\nd}", "{<}", "{a b\n a}"]),
+    # a synonym CHAIN on the group that opens a span: the span is a `Q`, the lexeme of the group named Q is an `R`
+    # (every lexeme is renamed once)
+    "spanchain": dict(tok=[["SPACE", r"\s+"], ["a", "a"], ["Q", "b"], ["Q0", "<"], ["COMMENT", r"\{"]],
+                      syn={"Q0": "Q", "Q": "R"}, kw=[], skip=None, T=["a", "Q", "R"], lex={"a": "a", "b": "R"}, sep=" ", noise="",
+                      span={"Q0": r"(?P<QB>[^>]*)>", "COMMENT": r"(?P<CB>[^}]*)\}"},
+                      spanlex={"Q": [["<x>", "x"], ["<x\ny>", "x\ny"], ["<b>", "b"], ["<a b>", "a b"], ["<>", ""]]},
+                      spannoise=["{c}", "{c\nd}", "{<}"]),
+    # keywords for two token names whose values collide across the names: `b` is a keyword value of w2 only, `a` of w
+    # only (a lexeme followed by `!` is a w2; `!` itself is skipped)
+    "kwcross": dict(tok=[["SPACE", r"\s+"], ["w2", r"[a-d](?=!)"], ["BANG", "!"], ["w", "[a-d]"]], syn={},
+                    kw=[["w", "a", "a"], ["w2", "b", "b"]], skip=["SPACE", "BANG"], T=["a", "b", "w", "w2"], lex={},
+                    sep=" ", noise="",
+                    spanlex={"a": [["a", "a"]], "b": [["b!", "b"]], "w": [["c", "c"], ["d", "d"], ["b", "b"]],
+                             "w2": [["a!", "a"], ["c!", "c"], ["d!", "d"]]},
+                    spannoise=[" "]),
     "noskip": dict(tok=[["SPACE", r"\s+"], ["a", "a"], ["b", "b"], ["c", "c"]], syn={}, kw=[], skip=[],
                    T=["a", "b", "c"], lex={"a": "a", "b": "b", "c": "c"}, sep="", noise=""),
 }
@@ -1074,10 +1089,39 @@ def gen_unitalias(rng, T, nts):
     return [[k, g[k]] for k in order]
 
 
+def gen_padded(rng, T, nts):
+    """LL(1) grammars with a nullable non-terminal occurring twice in a production made of non-terminals only:
+    S -> X c | c a ; X -> W B W ; W -> a | <empty> ; B -> b     (X is NOT nullable: a wrong 'X nullable' is a conflict)
+    L -> P L | <empty> ; P -> K V K V ; K -> a | <empty> ; V -> b   (a wrong 'P nullable' looks like left recursion)"""
+    if len(nts) < 4 or len(T) < 3:
+        return None
+    S, X, W, B = nts[:4]
+    t = list(T)
+    rng.shuffle(t)
+    if rng.random() < 0.5:
+        g = {S: [[X, t[2]], [t[2], t[0]]], X: [[W, B, W]], W: [[t[0]], []], B: [[t[1]]]}
+    else:
+        g = {S: [[X, S], []], X: [[W, B, W, B]], W: [[t[0]], []], B: [[t[1]]]}
+        if rng.random() < 0.5:
+            g[S] = [[X, S], [t[2]]]
+    if rng.random() < 0.5:
+        rng.shuffle(g[W])
+    for extra in nts[4:]:
+        g[extra] = [[rng.choice(t)]]
+    order = list(nts)
+    if rng.random() < 0.5:
+        rng.shuffle(order)
+    return [[k, g[k]] for k in order]
+
+
 def gen_ll1ish(rng, T, nts):
     """alternatives of a symbol start with distinct terminals (or a later non-terminal); at most one empty"""
     if rng.random() < 0.12:
         r = gen_unitalias(rng, T, nts)
+        if r is not None:
+            return r
+    if rng.random() < 0.12:
+        r = gen_padded(rng, T, nts)
         if r is not None:
             return r
     g = []
@@ -1500,6 +1544,18 @@ def gen_templates(rng, T, nts):
             tgt[1][:] = _dedupe(shape + [a for a in tgt[1] if a and rng.random() < 0.5])
             if not any(tgt[0] in a for a in top):
                 top.append([tgt[0]])
+    if rng.random() < 0.5:
+        # a container at DIFFERENT positions of two alternatives: the second starts with something the container can
+        # start with, so the first (failing) match of the container covers the place where it is expanded again
+        seqs_ = [x for x in tdefs if x[1]["t"] == "seq" and any(a in T for a in x[1]["args"])]
+        k, td = rng.choice(seqs_) if (seqs_ and rng.random() < 0.7) else rng.choice(tdefs)
+        firsts = [a for a in td["args"] if a in T] or [rng.choice(T)]
+        m = rng.choice(firsts)
+        tail = [rng.choice(T)]
+        a1 = [k] + [rng.choice(T)] * rng.randint(0, 1) + [rng.choice(T)] + tail
+        a2 = [m] * rng.randint(1, 2) + [k] + [rng.choice(T)] + tail
+        shape = [a1, a2] if rng.random() < 0.7 else [a2, a1]
+        top = shape + [a for a in top if rng.random() < 0.4]
     out = [[start, _dedupe(top)]] + tdefs + g
     if rng.random() < 0.4:
         rng.shuffle(out)
@@ -1519,7 +1575,7 @@ def gen_spec(rng, malformed_share=0.05, hidden_share=0.04, ll1_share=0.2, dfs_sh
              tmpl_share=0.05):
     """-> (spec, variant name, meta)"""
     var_name = rng.choice(["plain"] * 4 + ["syn", "kw", "synkw", "noskip", "swap", "spaceterm", "skipb", "comment",
-                           "skipiter", "free", "kwskip1", "kwskip2", "synid", "synchain", "synchainkw", "wsterm", "span"])
+                           "skipiter", "free", "kwskip1", "kwskip2", "synid", "synchain", "synchainkw", "wsterm", "span", "spanchain", "kwcross"])
     var = VARIANTS[var_name]
     T = list(var["T"])
     pool = list(rng.choice(NT_POOLS))
@@ -1556,6 +1612,7 @@ def gen_spec(rng, malformed_share=0.05, hidden_share=0.04, ll1_share=0.2, dfs_sh
         else:
             g, gen = gen_shaped(rng, T, nts), "shaped"
     anytok = False
+    repeated = False
     start = nts[0]
     if start == "E" and rng.random() < 0.5:
         start = None                 # start_symbol_name not passed: the constructor's default 'E'
@@ -1570,14 +1627,43 @@ def gen_spec(rng, malformed_share=0.05, hidden_share=0.04, ll1_share=0.2, dfs_sh
             tgt[1].insert(rng.randint(0, len(tgt[1])), {"ax": rng.sample(T, rng.randint(1, len(T)))})
             anytok = True
     emptykey = False
-    if gen != "malformed" and rng.random() < 0.08:
-        # a key with an empty list of alternatives (legal for the constructor), unreferenced or referenced
-        g.insert(rng.randint(0, len(g)), ["Y9", []])
-        if rng.random() < 0.5:
+    if gen != "malformed" and rng.random() < 0.1:
+        # a key that derives nothing - an empty list of alternatives, or only AnyTokenExcept(<every token>) - (legal for
+        # the constructor), unreferenced or referenced anywhere in an alternative, also in front of other symbols
+        dead = []
+        if rng.random() < 0.3:
+            tmp = {"tok": var["tok"], "syn": var["syn"], "kw": var["kw"]}
+            dead = [{"ax": sorted(terminal_names(tmp))}]
+            anytok = True
+        g.insert(rng.randint(0, len(g)), ["Y9", dead])
+        if rng.random() < 0.65:
             tgt = rng.choice([e for e in g if isinstance(e[1], list) and e[0] != "Y9"] or [None])
             if tgt is not None:
-                tgt[1].append([rng.choice(T), "Y9"])
+                r_ = rng.random()
+                lists = [a for a in tgt[1] if isinstance(a, list) and a]
+                if r_ < 0.35 or not lists:
+                    tgt[1].append([rng.choice(T), "Y9"])
+                elif r_ < 0.7:
+                    a = rng.choice(lists)
+                    a.insert(rng.randint(0, len(a)), "Y9")
+                else:       # in front of the symbol itself / of another key
+                    tgt[1].insert(rng.randint(0, len(tgt[1])), ["Y9", rng.choice([tgt[0]] + [e[0] for e in g]), rng.choice(T)])
         emptykey = True
+    if gen not in ("malformed", "layered") and rng.random() < 0.15:
+        # standing feature: one non-terminal occurring 2-3 times in ONE production (W B W, K V K V)
+        cands = [(e, a) for e in g if isinstance(e[1], list) for a in e[1] if isinstance(a, list)
+                 and any(x for x in a if x not in T)]
+        if cands:
+            e, a = rng.choice(cands)
+            keys = set(k for k, _ in g)
+            x = rng.choice([x for x in a if x not in T])
+            if x in keys:
+                for _ in range(rng.randint(1, 2)):
+                    i = a.index(x)
+                    a.insert(rng.randint(i + 1, len(a)), x)
+                    if rng.random() < 0.5 and len(a) < 6:
+                        a.insert(rng.randint(i + 1, len(a) - 1), rng.choice(sorted(keys) + T))
+                repeated = True
     spec = {"tok": [list(x) for x in var["tok"]], "syn": dict(var["syn"]), "kw": [list(x) for x in var["kw"]],
             "skip": None if var["skip"] is None else list(var["skip"]), "start": start, "prods": g}
     if "span" in var:
@@ -1589,6 +1675,8 @@ def gen_spec(rng, malformed_share=0.05, hidden_share=0.04, ll1_share=0.2, dfs_sh
         meta["emptykey"] = 1
     if anytok:
         meta["anytoken"] = 1
+    if repeated:
+        meta["repeated"] = 1
     if spec.get("kinds"):
         meta["skipkind"] = spec["kinds"]["skip"]
     if kind == "bad-skip":           # skip_tokens names a token the tokenizer does not know: GrammarError
@@ -1651,7 +1739,7 @@ def gen_ll_cases(rng, n_grammars, maxlen, extra_long=0, rec_maxlen=2, malformed_
                                   lexmap=dict(var["lex"], q="Zq"))
             continue
         line_texts = []
-        if ok and not rec and (var_name in ("free", "wsterm", "span") or rng.random() < 0.15):
+        if ok and not rec and (var_name in ("free", "wsterm", "span", "spanchain") or rng.random() < 0.15):
             line_texts = [t for t in texts if rng.random() < 0.2][:30]
         seqs = []
         if ok and not rec:
@@ -1950,7 +2038,7 @@ def tags(case, replies):
         yield "start:" + m["start"]
     if "malformed" in m:
         yield "malformed:" + m["malformed"]
-    for k in ("emptykey", "parsers", "skipkind", "threads", "anytoken"):
+    for k in ("emptykey", "parsers", "skipkind", "threads", "anytoken", "repeated", "observers", "kwcalls", "shareditems"):
         if k in m:
             yield "%s:%s" % (k, m[k])
     for line, rep in zip(case["lines"], replies):
